@@ -275,7 +275,7 @@ def _main():
 
 
 def contracts(repo):
-    return [_decrypt("roundtrip"), _decrypt("auth"), _main()]
+    return [_decrypt("roundtrip"), _decrypt("auth"), _main(), _init_exposure(repo)]
 
 
 # ------------------------------------------------------------------------------------------------ determinism of key derivation (effect obligation)
@@ -383,3 +383,38 @@ def trusted(pid):
             "A4 SHA-256 / PBKDF2 (hashlib) are functions of their arguments",
             "_pack_envelope_header / _pack_attributes vs _read_envelope_attributes (serialisation inverse), Envelope.__init__ field plumbing, KeyStore text parsing and key derivation arguments: bounded block only",
             "RangeStream(self.fh, 4096, size) is modelled as a file of `size` bytes (dissect.util, A3)", "environment: pycryptodome, not _pystandalone"]
+
+
+# ------------------------------------------------------------------------------------------------ Envelope.__init__: exposed geometry (gate mode)
+def _init_exposure(repo):
+    from .gates import GateModel, fld, parsed
+
+    def model():
+        m = GateModel(MOD, FILE, "Envelope", repo=repo)
+        m.globals["RangeStream"] = FuncRef_("RangeStream")
+        m.global_calls["RangeStream"] = lambda eng, st, args, node, **kw: (st.ghost.__setitem__("range_stream", tuple(args)), ObjV("data_stream"))[1]
+        m.truthy["data_stream"] = z3.BoolVal(True)
+        return m
+
+    def post(eng, st, rv):
+        m = eng.model
+        fsize, _arr = m.file("fh")
+        foot = parsed(st, "DataTransformAeadFooter")
+        size = eng.as_int(st.attrs["self.size"], st, None)
+        dg = st.attrs.get("self.digest")
+        data = fld(eng, st, foot, "data")
+        n = fld(eng, st, foot, "size").e
+        rs = st.ghost.get("range_stream")
+        goals = [("size_is_the_file_size_minus_header_and_footer_block", size == fsize - 2 * 4096),
+                 ("digest_is_the_first_footer_size_bytes_of_the_footer_data", z3.And(dg.n == zmin(n, data.n), forall_k(dg.n, lambda k: dg.at(k) == data.at(k))) if isinstance(dg, BytesV) else z3.BoolVal(False)),
+                 ("data_area_starts_after_the_header_block_and_has_that_size", z3.And(z3.BoolVal(rs is not None and len(rs) == 3 and isinstance(rs[0], FileV)), eng.as_int(rs[1], st, None) == 4096, eng.as_int(rs[2], st, None) == size) if rs else z3.BoolVal(False))]
+        return goals
+
+    return FnContract(FILE, "Envelope.__init__", ["C16"], model, params=lambda m: {"self": ObjV("self"), "fh": FileV("fh"), "verify": OpaqueV("verify")}, requires=lambda m: m.hyps, post=post,
+                      allow_any_exception=True, mode="exposure", note="gate mode: header, attributes and footer arbitrary; normal return => exposed size / digest / data stream as specified")
+
+
+def FuncRef_(name):
+    from pyvc.engine import FuncRef
+
+    return FuncRef(name)
